@@ -52,9 +52,17 @@ RULE = (
     'callback-less subscribe with the proxy\'s "update" event, unsubscribe of one of several / of all / of a callback that never subscribed, sends after each step); '
     'overlapping operations (2..4 reads started together on the same or different bearers, a read in flight - 0..6 loop turns ahead - while the '
     'server notifies/indicates); one enhanced bearer closed by the client or the server while the connection stays, sends, a new enhanced bearer '
-    'opened later (channel identifiers reused), sends; reconnect with a fresh MTU exchange on the new connection. non-trivial = some discovery '
+    'opened later (channel identifiers reused), sends; reconnect with a fresh MTU exchange on the new connection. '
+    'Two further families (small database, first service primary) append 3..8 writes of generated length classes: 0, 1, 2, 20, 510, 511, 512, 513, '
+    'L-2..L+2 with L = min(ATT_MTU-3, 512) of the writing bearer, lengths at the read boundaries of the bearers, any length 0..514; target = a '
+    'characteristic value or one of its user descriptors; Write Request or Write Command; on the unenhanced or an enhanced bearer of any client; every '
+    'case contains one Write Request and one Write Command of exactly L bytes. Each write is followed by a read-back on the writing bearer or on another '
+    'one (a long read when that bearer\'s ATT_MTU is small). Family "writes": MTU preferences as above; family "writes_max": server max MTU and '
+    'client 0\'s preference both in 515..517 (EATT L2CAP MTUs mostly 515/517/2048), so that L = 512, the largest attribute value. '
+    'non-trivial = some discovery '
     'step needed >=2 response PDUs, or UUID widths are mixed inside one discovery range, or a long '
-    'read happened, or a server send had >=2 subscribed bearers, or long reads overlapped (with each other on two bearers / with a send to the reading bearer). '
+    'read happened, or a server send had >=2 subscribed bearers, or long reads overlapped (with each other on two bearers / with a send to the reading bearer), '
+    'or a write of 0, L-1 or L bytes was applied and read back. '
     'B (script): one discovery procedure (all six, generated handle ranges for the range-based ones) '
     'against a scripted adversarial server: list responses with absolute / request-relative handles '
     '(equal to start, start-1, 0, 0xFFFF, end < start, non-monotonic), empty lists, wrong-type '
@@ -66,6 +74,10 @@ RULE = (
 ASSUMPTIONS = [
     'all generated attributes are readable and writeable without security (permissions are C11)',
     'a plain Write Request/Command is only asserted for values of at most ATT_MTU-3 bytes',
+    'the client API offers Write Request and Write Command only (no prepared / long writes), so a written value has at most min(ATT_MTU-3, 512) bytes; '
+    'inside that bound a write must not raise, the server\'s attribute must hold exactly the written bytes afterwards and a read on any bearer must return '
+    'them. A write of more than ATT_MTU-3 or more than 512 bytes is outside the statement: refused, dropped, applied or truncated are all accepted, only '
+    'the following read still has to return whatever the server holds (when that is at most 512 bytes)',
     'ATT_MTU of an enhanced bearer = min of the two L2CAP MTU fields (Core Vol 3 Part F 3.2.8)',
     'a forced send to an unsubscribed bearer: only the wire clause is asserted for the target '
     '(its callback may or may not fire); callbacks of all other bearers must stay silent',
@@ -199,6 +211,12 @@ class Sniffer:
 # Harness A: generators
 # ---------------------------------------------------------------------------
 MTU_POINTS = [23, 23, 24, 25, 27, 30, 48, 64, 100, 185, 247, 255, 256, 257, 512, 515, 516, 517]
+MAX_VALUE = 512  # the largest attribute value (Core Vol 3 Part F 3.2.9); the harness' own constant
+BIG_MTUS = [515, 516, 517, 517]  # ATT_MTU - 3 >= 512
+BIG_EATT_MTUS = [515, 517, 2048]
+# written lengths: ['len', n] = n bytes (at most ATT_MTU-3 of the writing bearer), ['mtu', d] = min(ATT_MTU-3, 512) + d bytes
+WRITE_SPECS = [['len', 0], ['len', 1], ['len', 2], ['len', 20], ['mtu', 0], ['mtu', 0], ['mtu', 0], ['mtu', -1], ['mtu', -2], ['mtu', 1], ['mtu', 2],
+               ['len', 510], ['len', 511], ['len', 512], ['len', 512], ['len', 513]]
 
 
 def mtu_st():
@@ -239,18 +257,22 @@ PROP_POINTS = [0x02, 0x0A, 0x10, 0x20, 0x30, 0x12, 0x22, 0x32, 0x3A, 0x04, 0x0E,
 @st.composite
 def db_case(draw, focus=None):
     """focus=None: the general family (every appended block with its own probability). focus='subscribers' / 'overlap' /
-    'churn': a small database (1..2 services, 1..3 characteristics, the first one subscribable), 1..2 clients, a short
+    'churn' / 'writes' / 'writes_max': a small database (1..2 services, 1..3 characteristics, the first one subscribable), 1..2 clients, a short
     general operation list, and ALWAYS the block of that name - so that these histories do not depend on the luck of
     the general family."""
-    server_mtu = draw(mtu_st())
-    eatt_server_mtu = draw(eatt_mtu_st())
+    # focus='writes_max': both sides ask for 515..517 on the unenhanced bearer of client 0 and (mostly) for >= 515 on the
+    # enhanced bearers, so that the largest attribute value (512 bytes) fits into one Write PDU
+    big = focus == 'writes_max'
+    server_mtu = draw(st.sampled_from(BIG_MTUS) if big else mtu_st())
+    eatt_server_mtu = draw(st.sampled_from(BIG_EATT_MTUS) if big else eatt_mtu_st())
     nclients = draw(st.sampled_from([1, 2, 3, 1, 2] if focus is None else [1, 2, 2]))
     clients = []
     for k in range(nclients):
         clients.append(
             {
-                'mtu': draw(st.one_of(st.none(), mtu_st(), mtu_st(), mtu_st())),
-                'eatt': draw(st.lists(eatt_mtu_st(), min_size=1, max_size=2)) if draw(st.booleans()) or (focus == 'churn' and k == 0) else [],
+                'mtu': draw(st.sampled_from(BIG_MTUS) if big and k == 0 else st.one_of(st.none(), mtu_st(), mtu_st(), mtu_st())),
+                'eatt': draw(st.lists(st.one_of(st.sampled_from(BIG_EATT_MTUS), eatt_mtu_st()) if big else eatt_mtu_st(), min_size=1, max_size=2))
+                if draw(st.booleans()) or (focus == 'churn' and k == 0) else [],
             }
         )
     bearer_mtus = []
@@ -287,7 +309,8 @@ def db_case(draw, focus=None):
         services.append(
             {
                 'uuid': draw(uuid_st('svc')),
-                'primary': draw(st.sampled_from([True, True, True, False])),
+                # (writes: the first service is primary, so that the client reaches something it can write)
+                'primary': draw(st.sampled_from([True, True, True, False])) or (focus in ('writes', 'writes_max') and i == 0),
                 'includes': includes,
                 'chars': chars,
             }
@@ -368,6 +391,23 @@ def db_case(draw, focus=None):
         if draw(st.integers(0, 2)) > 0:
             block += [['open_eatt', draw(idx), draw(eatt_mtu_st())]]
             block += [list(o) for o in draw(st.lists(st.one_of(all_sends, all_sends, sub), min_size=1, max_size=3))]
+        ops += block
+    if focus in ('writes', 'writes_max'):
+        # writes of every length class through every kind of bearer, each one read back (on the writing bearer or on
+        # another one): [bearer, characteristic, 'v' = its value / n = its n-th user descriptor, length, seed,
+        # Write Request or Write Command, bearer that reads back (None = the writing one)]
+        bsel = st.one_of(st.just(0), st.just(0), idx)
+        spec = st.one_of(st.sampled_from(WRITE_SPECS), st.sampled_from(WRITE_SPECS), st.sampled_from(WRITE_SPECS),
+                         st.tuples(st.just('len'), lengths).map(list), st.tuples(st.just('len'), st.integers(0, MAX_VALUE + 2)).map(list))
+        writev = st.tuples(st.just('writev'), bsel, st.one_of(st.just(0), idx), st.sampled_from(['v', 'v', 'v', 0, 1]), spec, st.integers(0, 255),
+                           st.booleans(), st.one_of(st.none(), st.none(), bsel, idx))
+        block = [list(o) for o in draw(st.lists(writev, min_size=1, max_size=6))]
+        # every case also writes the largest value its bearer can take in one PDU, once with each kind of write
+        first = draw(st.booleans())
+        for with_response in (first, not first):
+            o = list(draw(writev))
+            o[4], o[6] = ['mtu', 0], with_response
+            block.insert(draw(st.integers(0, len(block))), o)
         ops += block
     if draw(st.integers(0, 3)) == 0:
         # a subscribed client drops its connection and comes back (usually on the same connection handle), then the
@@ -1305,6 +1345,80 @@ async def _run_ops(loop, case, S, fail, sniffer, server, L, my_chars, sub_chars,
                 fail('write_value/not_applied/' + ('request' if with_response else 'command'),
                      f'wrote {n} bytes ({hx(value)}) to 0x{lc["vh"]:04X} (ATT_MTU {b["mtu"]}); the server value is now {hx(now) if isinstance(now, (bytes, bytearray)) else now!r}')
                 raise _Abort()
+        elif name == 'writev':
+            # a write of a generated length class to a characteristic value or a user descriptor, then a read-back
+            if not my_chars:
+                continue
+            bi = alive(op[1])
+            b = bearers[bi]
+            reach = [c for c in my_chars if c['vh'] in b['chars']]
+            if not reach:
+                continue
+            lc = reach[int(op[2]) % len(reach)]
+            handle, attribute, what = lc['vh'], lc['value_obj'], 'characteristic value'
+            target = b['chars'][lc['vh']]
+            if op[3] != 'v':
+                user = [(h, a) for h, t, a in lc['descs'] if t != T_CCCD and isinstance(a.value, (bytes, bytearray))]
+                if user:
+                    handle, attribute = user[int(op[3]) % len(user)]
+                    what, target = 'descriptor', handle
+                    labels.add('write:descriptor')
+            limit = min(b['mtu'] - 3, MAX_VALUE)
+            how, d = op[4][0], int(op[4][1])
+            n = max(0, min(d, b['mtu'] - 3) if how == 'len' else limit + d)
+            value = pattern(n, int(op[5]) ^ 0x3C)
+            with_response = bool(op[6])
+            wkind = 'request' if with_response else 'command'
+            rb = b if len(op) < 8 or op[7] is None else bearers[alive(int(op[7]))]
+            tag = f'0x{handle:04X} ({what}) {n} bytes, Write {wkind.capitalize()}, client {b["k"]} bearer {b["j"]} ATT_MTU {b["mtu"]}'
+            labels.add('writev')
+            if n <= limit:
+                ok, _ = await _call(S, fail, 'write_value', b['client'].write_value(target, value, with_response=with_response), tag)
+                if not ok:
+                    raise _Abort()
+                if not with_response:
+                    await asyncio.sleep(QUIET)
+                now = attribute.value
+                if not isinstance(now, (bytes, bytearray)) or bytes(now) != value:
+                    fail('write_value/not_applied/' + wkind,
+                         f'wrote {tag} ({hx(value)}); the server value is now {f"{len(now)} bytes ({hx(now)})" if isinstance(now, (bytes, bytearray)) else repr(now)}')
+                    raise _Abort()
+                if not await _read_and_compare(S, fail, rb, handle, value, f'{what} after a write of'):
+                    raise _Abort()
+                labels.add('write:' + wkind)
+                labels.add('write_readback')
+                if rb is not b:
+                    labels.add('write_readback:other_bearer')
+                if n > rb['mtu'] - 1:
+                    labels.add('write_readback:long_read')
+                if b['enh']:
+                    labels.add('write_on_eatt')
+                for cls, hit in (('0', n == 0), ('1', n == 1), ('mtu-3', n == b['mtu'] - 3), ('mtu-4', n == b['mtu'] - 4), ('511', n == MAX_VALUE - 1), ('512', n == MAX_VALUE)):
+                    if hit:
+                        labels.add(f'write_len:{cls}')
+                        labels.add(f'write_len:{cls}:{wkind}')
+                if n == MAX_VALUE and b['enh']:
+                    labels.add('write_len:512:eatt')
+                if n in (0, limit, limit - 1):
+                    S['nontrivial'] = True
+            else:
+                # more than ATT_MTU-3 or more than 512 bytes: outside the statement, every outcome of the write is accepted
+                # (refused, dropped, applied, truncated); afterwards the bearer still has to read what the server holds
+                S['phase'] = f'write_value:{tag}'
+                try:
+                    await b['client'].write_value(target, value, with_response=with_response)
+                except asyncio.CancelledError:
+                    raise
+                except Exception:  # noqa: BLE001 - accepted
+                    labels.add('write_beyond:raised')
+                await asyncio.sleep(QUIET)
+                now = attribute.value
+                labels.add('write_len:beyond')
+                labels.add('write_len:beyond:' + ('max' if n > MAX_VALUE else 'mtu-3'))
+                if isinstance(now, (bytes, bytearray)):
+                    labels.add('write_beyond:applied' if bytes(now) == value else 'write_beyond:not_applied')
+                    if len(now) <= MAX_VALUE and not await _read_and_compare(S, fail, rb, handle, bytes(now), f'{what} after an oversized write of'):
+                        raise _Abort()
         elif name == 'read':
             if not my_chars:
                 continue
@@ -1807,6 +1921,8 @@ def run(ctx) -> None:
     ctx.hyp('db', lambda c: run_db_case(ctx, c), db_case(), max_examples=ctx.n(220, 6400))
     for focus in ('subscribers', 'overlap', 'churn'):
         ctx.hyp(f'db_{focus}', lambda c: run_db_case(ctx, c), db_case(focus), max_examples=ctx.n(45, 1600))
+    for focus in ('writes', 'writes_max'):
+        ctx.hyp(f'db_{focus}', lambda c: run_db_case(ctx, c), db_case(focus), max_examples=ctx.n(20, 800))
     ctx.hyp('script', lambda c: run_script_case(ctx, c), script_case(), max_examples=ctx.n(1200, 32000))
     for label, n in (
         ('clients:2', 5), ('clients:3', 3), ('eatt_bearer', 5), ('included_service', 10), ('secondary_service', 10),
@@ -1825,6 +1941,10 @@ def run(ctx) -> None:
         ('concurrent_reads', 10), ('concurrent_reads:same_bearer', 5), ('concurrent_reads:long_on_two_bearers', 2), ('read_during_send', 10),
         ('long_read_during_send:on_a_target_bearer', 4), ('eatt_closed:by_client', 5), ('eatt_closed:by_server', 5),
         ('eatt_closed:sibling_subscribed', 5), ('eatt_opened_later', 5), ('eatt_cid_reused', 3), ('reconnect_new_mtu', 5),
+        # extension: writes of every length class up to the largest attribute value, read back
+        ('writev', 20), ('write_readback', 20), ('write_len:512:request', 3), ('write_len:512:command', 3), ('write_len:mtu-3:request', 8),
+        ('write_len:mtu-3:command', 8), ('write_len:0', 2), ('write_len:beyond', 1), ('write:descriptor', 3), ('write_on_eatt', 2),
+        ('write_readback:other_bearer', 3),
     ):
         ctx.floor(label, n)
     for p in PROCS:
